@@ -42,10 +42,54 @@ def _fill(dst, prefix, src):
         dst[prefix] = src.item()
 
 
+def body_special(ctx: H.BaseCtx):
+    """Native only: coefficients nan / +-inf / -0.0 / huge.  The formal derivative multiplies the coefficient of each term that
+    contains the variable by its exponent and *drops* every other term (it does not multiply it by zero)."""
+    import numpoly
+    from .. import special as SP
+
+    if ctx.symbolic:
+        return
+    case = ctx.case
+    names = ("q0", "q1")
+    exps = [[0, 0], [1, 0], [0, 2], [2, 1]]
+    cols = [numpy.array(SP.PAIRS[(case["k"] + i) % len(SP.PAIRS)], dtype=float) for i in range(len(exps))]
+    if case.get("only_other"):  # no term contains q0 at all
+        exps, cols = [[0, 0], [0, 2], [0, 1]], cols[:3]
+    p = numpoly.ndpoly(exponents=exps, shape=(2,), names=names, dtype=float)
+    for key, col in zip(p.keys, cols):
+        p.values[key] = col
+    before = SP.bytes_of(p)
+    with numpy.errstate(all="ignore"):
+        for var, idx in (("q0", 0), ("q1", 1)):
+            want = {}
+            for e, c in zip(exps, cols):
+                if e[idx] > 0:
+                    ne = list(e)
+                    ne[idx] -= 1
+                    want[tuple(ne)] = e[idx] * c
+            for desig in (var, idx, numpoly.symbols(var)):
+                try:
+                    r = numpoly.derivative(p, desig)
+                except Exception as ex:
+                    ctx.unexpected_exception(ex, "derivative (special values)")
+                    continue
+                SP.expect_terms(ctx, r, want, "derivative w.r.t. %s of a polynomial with coefficients %s" % (var, [c.tolist() for c in cols]))
+            try:
+                g = numpoly.gradient(p)
+                SP.expect_terms(ctx, g[idx], want, "gradient[%d] (special values)" % idx)
+            except Exception as ex:
+                ctx.unexpected_exception(ex, "gradient (special values)")
+    if SP.bytes_of(p) != before:
+        ctx.fail("mutated", "derivative changed its argument (special values)")
+
+
 def body(ctx: H.BaseCtx):
     import numpoly
 
     case = ctx.case
+    if case.get("fn") == "special":
+        return body_special(ctx)
     pspec = case["poly"]
     p = ctx.build(pspec)
     mp = ctx.model(pspec)
@@ -143,6 +187,12 @@ def gen_cases(tier: str, seed: int) -> List[Dict]:
                 if dv is not None:
                     c["diffvars"] = dv
                 cases.append(c)
+    # native special values (nan, inf, -0.0, huge): see body_special
+    dummy = {"kind": "poly", "names": ["q0"], "exps": [[0]], "shape": [], "slots": [[1]], "mode": "raw"}
+    for k in range(8):
+        for oo in (False, True):
+            n += 1
+            cases.append({"id": "%s-%03d-special" % (PROP, n), "op": "special", "fn": "special", "poly": dummy, "k": k, "only_other": oo, "options": {}, "limits": lim})
     # mixed partials in both orders on the same structure (symmetry), default and retain_names=False
     # (second structure: the first round eliminates q0 / q1 altogether, so later positions must still mean the original names)
     for opt in ({}, {"retain_names": False}, {"retain_coefficients": True}, {"retain_names": False, "retain_coefficients": True}):
